@@ -40,9 +40,7 @@ def run(ctx, res):
             "predicate_reads": sorted(LR.key_str(k) for k in site["reads"]),
             "loop_blocks": sorted(site["loop"]),
         })
-        must = {("channel", "is_accepting_writes"), ("channel", "holds.pos"),
-                ("channel", "holds.cycles"), ("channel", "holds.n"),
-                ("channel", "head"), ("channel", "cycle")}
+        must = {("channel", "is_accepting_writes")}
         missing = must - set(site["reads"])
         if not site["loop"]:
             LR.rule_l_recheck(la, res, site)   # reports the missing loop
